@@ -21,3 +21,8 @@ Fixpoint mult_index (x : mult) (l : list mult) : nat :=
   | [] => 0
   | y :: r => if mult_eqb x y then 0 else S (mult_index x r)
   end.
+
+(* how model.py's list-assignment handler tells separator nodes from value nodes among the children of a
+   `*=`/`+=` node: by the expression that produced the node (identity with the repetition's separator), by the
+   rule name "sep", or by position (every odd-indexed child when the repetition has a separator) *)
+Inductive sepmode := SepByNode | SepByName | SepByPosition.
